@@ -5,5 +5,5 @@ CLAIM = ("Headers failing their own integrity data are never returned: for arbit
          "range, common CRC matches, level <= 3, file has a name / directory a path); the basic reader latches end-of-archive after the first failure.")
 ASSUMPTIONS = ["decomposed along lha_file_header.c's own functions (level decoders, extended-header walk, post-processing tail)",
                "the property's 'all 255 substitutions at every position' is subsumed: the header bytes are fully symbolic"]
-HARNESSES = [l01(40), l23(2), l23(3), l1ext(13), walk(16), tail(3)] + ext_all() + [
+HARNESSES = [l01(40), l01long(timeout=3600, tier="thorough"), l23(2), l23(3), l1ext(13), walk(16), tail(3)] + ext_all() + [
     l01(64, timeout=1800, tier="thorough"), l1ext(17, timeout=2400, tier="thorough"), walk(24, timeout=1800, tier="thorough")]
